@@ -13,3 +13,4 @@ import Lace.Props.C02
 import Lace.Proofs.AsmLex
 import Lace.Proofs.AsmParse
 import Lace.Props.C05
+import Lace.Props.C19
